@@ -24,10 +24,55 @@ class C05(ModelCheck):
             # ultra-long single key (counters far beyond 16 bits); generated inside execute, compared on the final output only
             return {'ultra': {'n': rng.choice([70000, 131073, 140000, 196609, 262147]), 'window': rng.choice([2, 3, 4, 5]),
                               'stride': rng.choice([1, 2, 3])}, 'program': [], 'events': [], 'end': 'complete'}
+        if tier != 'quick' and rng.random() < 0.0002:
+            # ultra-wide: hundreds of thousands of groups, so that window slot indices (group index x windows per group) pass 2**16 and 2**20
+            return {'ultra': {'groups': rng.choice([70000, 270000]), 'window': rng.choice([5, 6]), 'stride': 1, 'n': 0},
+                    'program': [], 'events': [], 'end': 'complete'}
         return ModelCheck.gen(self, rng, tier)
+
+    def execute_wide(self, u):
+        import operator
+        import rx
+        import rxsci as rs
+        from rxsim.runner import Outcome
+        out = Outcome()
+        G, w, s = u['groups'], u['window'], u['stride']
+        items = [(g, 0) for g in range(G)]
+        tail = [G - 1 - k for k in range(4)] + [G // 2, 0]
+        for rep_ in range(1, 4):
+            items += [(g, rep_) for g in tail]
+        got = {}
+        errs = []
+
+        def take(win):
+            if isinstance(win, list) and win:
+                got.setdefault(win[0][0], []).append([v for _, v in win])
+            else:
+                errs.append(repr(win)[:80])
+        rx.from_(items).pipe(rs.state.with_memory_store([rs.ops.group_by(operator.itemgetter(0), [rs.data.roll(w, s, [rs.data.to_list()])])])).subscribe(
+            on_next=take, on_error=lambda e: errs.append(repr(e)[:200]))
+        bad = None
+        for g in list(range(0, G, 997)) + tail:
+            vals = list(range(4)) if g in tail else [0]
+            exp = [vals[a:a + w] for a in range(0, len(vals), s)]
+            if got.get(g) != exp:
+                bad = (g, exp, got.get(g))
+                break
+        if errs or bad or len(got) != G:
+            out.add('window-items', 'roll', {'groups': G, 'window': w, 'stride': s, 'groups_with_output': len(got), 'foreign_outputs': errs[:3],
+                                             'first_bad_group': bad})
+        out.steps = len(items)
+        out.ticks = len(items)
+        out.nontrivial = True
+        out.shape = ('ultra-wide', G, w, s)
+        out.digest = repr((G, w, s, len(got), errs[:3], bad))
+        out.probes['ultra_wide_groups>=70000'] += 1
+        return out
 
     def valid(self, case):
         u = case.get('ultra')
+        if u is not None and u.get('groups') is not None:
+            return isinstance(u['groups'], int) and 1 <= u['groups'] <= 300000 and 1 <= u.get('window', 0) <= 8 and u.get('stride', 0) >= 1
         if u is not None:
             return isinstance(u.get('n'), int) and 0 <= u['n'] <= 300000 and u.get('window', 0) >= 1 and u.get('stride', 0) >= 1 and u['window'] <= 64
         return ModelCheck.valid(self, case)
@@ -36,6 +81,8 @@ class C05(ModelCheck):
         u = case.get('ultra')
         if u is None:
             return ModelCheck.execute(self, case)
+        if u.get('groups') is not None:
+            return self.execute_wide(u)
         import rx
         import rxsci as rs
         from rxsim.runner import Outcome
